@@ -130,53 +130,19 @@ func normalizeDocument(schema *Schema, doc *ast.Document, operationName string) 
 // AST kind only — so two normalize-equivalent queries hash the
 // same.
 func fingerprintDocument(doc *ast.Document, op *ast.OperationDefinition, operationName string) string {
-	// The key is the printed text of the operation followed by every
-	// fragment it can reach, so everything that can change the response
-	// (directives, default values, aliases, surviving literals) takes
-	// part in it, and nothing depends on an ad-hoc encoding.
+	// The key is the printed text of every definition of the document, the
+	// (normalised) operation in its place: validation judges the whole
+	// document, so an unused fragment or a second operation can change the
+	// response just as directives, default values, aliases and surviving
+	// literals can. Nothing depends on an ad-hoc encoding.
 	var b strings.Builder
 	b.WriteString(operationName)
-	b.WriteByte(0)
-	b.WriteString(fmt.Sprint(printer.Print(op)))
-	fragments := collectFragmentDefs(doc)
-	visited := map[string]bool{}
-	var reach func(sel *ast.SelectionSet)
-	reach = func(sel *ast.SelectionSet) {
-		if sel == nil {
-			return
-		}
-		for _, isel := range sel.Selections {
-			switch n := isel.(type) {
-			case *ast.Field:
-				reach(n.SelectionSet)
-			case *ast.InlineFragment:
-				reach(n.SelectionSet)
-			case *ast.FragmentSpread:
-				if n.Name == nil || visited[n.Name.Value] {
-					continue
-				}
-				visited[n.Name.Value] = true
-				if frag, ok := fragments[n.Name.Value]; ok {
-					b.WriteByte(0)
-					b.WriteString(fmt.Sprint(printer.Print(frag)))
-					reach(frag.SelectionSet)
-				}
-			}
-		}
+	for _, def := range doc.Definitions {
+		b.WriteByte(0)
+		b.WriteString(fmt.Sprint(printer.Print(def)))
 	}
-	reach(op.SelectionSet)
 	sum := sha256.Sum256([]byte(b.String()))
 	return hex.EncodeToString(sum[:])
-}
-
-func collectFragmentDefs(doc *ast.Document) map[string]*ast.FragmentDefinition {
-	out := map[string]*ast.FragmentDefinition{}
-	for _, def := range doc.Definitions {
-		if fd, ok := def.(*ast.FragmentDefinition); ok && fd.Name != nil {
-			out[fd.Name.Value] = fd
-		}
-	}
-	return out
 }
 
 // normCtx threads state across the recursive walk: schema for type
